@@ -7,6 +7,7 @@ package reconc
 import (
 	"context"
 	"fmt"
+	aftpb "github.com/openconfig/gribi/v1/proto/gribi_aft"
 	"sort"
 	"strings"
 	"sync"
@@ -44,12 +45,22 @@ type slot struct {
 
 func m(i, w uint64) [2]uint64 { return [2]uint64{i, w} }
 
+// richNH is a next-hop payload with several optional leaves set: between it and the plain payload a replace has to
+// add leaves in one direction and REMOVE leaves in the other (a replace that merges shows only then).
+func richNH(idx uint64, ip string) *aftpb.Afts_NextHopKey {
+	n := ribx.NHEntry(idx, ip)
+	n.NextHop.MacAddress = ribx.S("02:00:00:00:00:01")
+	n.NextHop.InterfaceRef = &aftpb.Afts_NextHop_InterfaceRef{Interface: ribx.S("eth0"), Subinterface: ribx.U(3)}
+	n.NextHop.PushedMplsLabelStack = []*aftpb.Afts_NextHop_PushedMplsLabelStackUnion{{PushedMplsLabelStackUint64: 100}, {PushedMplsLabelStackUint64: 200}}
+	return n
+}
+
 func universe(thorough bool) []slot {
 	u := []slot{
-		{"nh1@D", []*ent{nil, {D, ribx.NHEntry(1, "1.1.1.1")}, {D, ribx.NHEntry(1, "9.9.9.9")}}},
+		{"nh1@D", []*ent{nil, {D, ribx.NHEntry(1, "1.1.1.1")}, {D, richNH(1, "9.9.9.9")}}},
 		{"nh2@D", []*ent{nil, {D, ribx.NHEntry(2, "2.2.2.2")}}},
 		{"nhg1@D", []*ent{nil, {D, ribx.NHGEntry(1, 0, m(1, 1))}, {D, ribx.NHGEntry(1, 0, m(1, 1), m(2, 2))}}},
-		{"v4p@D", []*ent{nil, {D, ribx.V4Entry("10.0.0.0/8", 1, "", nil)}, {D, ribx.V4Entry("10.0.0.0/8", 1, V, nil)}}},
+		{"v4p@D", []*ent{nil, {D, ribx.V4Entry("10.0.0.0/8", 1, "", nil)}, {D, ribx.V4Entry("10.0.0.0/8", 1, V, []byte{7})}}},
 		{"mpls100@D", []*ent{nil, {D, ribx.MPLSEntry(100, 1, "", nil)}}},
 		{"nh1@V", []*ent{nil, {V, ribx.NHEntry(1, "3.3.3.3")}}},
 		{"nhg1@V", []*ent{nil, {V, ribx.NHGEntry(1, 0, m(1, 1))}}},
